@@ -201,10 +201,24 @@ pub fn build(base: &Module, salt: u64) -> Scenario {
     // sibling modules: how they are matched by the import
     let mut siblings: Vec<Module> = Vec::new();
     let mut imports: Vec<Import> = Vec::new();
+    // how the siblings' object identifiers relate: 0 = different second arcs, 1 = every OID is a
+    // proper prefix of the next sibling's, 2 = they differ in the last arc only
+    let oid_scheme = r.below(3);
     for (k, vas) in sib_assigns.iter().enumerate() {
         let mode = r.below(3); // 0 name only, 1 OID only (name in the import differs), 2 both
         let name = format!("Sibling{k}");
-        let oid = vec![OidComp { name: Some("iso".into()), number: Some(1) }, OidComp { name: None, number: Some(100 + k as u64) }, OidComp { name: Some("sib".into()), number: Some(k as u64) }];
+        let arc = |name: Option<&str>, number: u64| OidComp { name: name.map(|n| n.to_string()), number: Some(number) };
+        let oid = match oid_scheme {
+            0 => vec![arc(Some("iso"), 1), arc(None, 100 + k as u64), arc(Some("sib"), k as u64)],
+            1 => {
+                let mut v = vec![arc(Some("iso"), 1), arc(None, 100)];
+                for j in 0..k {
+                    v.push(arc(Some("sub"), 7 + j as u64));
+                }
+                v
+            }
+            _ => vec![arc(Some("iso"), 1), arc(None, 100), arc(Some("sib"), k as u64)],
+        };
         let mut sm = Module { name: name.clone(), oid: if mode >= 1 { Some(oid.clone()) } else { None }, tagging: Tagging::Automatic, imports: vec![], body: vas.iter().cloned().map(Assignment::Value).collect() };
         if r.chance(30) {
             // an unrelated definition in the sibling
@@ -299,7 +313,7 @@ pub fn build(base: &Module, salt: u64) -> Scenario {
     Scenario { texts, main_name: "Main-Unit".into(), literal, negative, sites_replaced: assigns.len(), placement }
 }
 
-const RULE: &str = "a literal-only module A (roundtrip profile, proptest; in every fourth case some ranges / sizes are made degenerate `n..n` with and without extension marker) is turned into a referencing variant: a random subset of its literal sites (INTEGER bounds, SIZE bounds, DEFAULT values of INTEGER / BOOLEAN / strings) is replaced by fresh value references whose assignments are placed before the use, after the use, or in one of 1..3 sibling modules imported by name only, by OID only (the name in the import differs) or by both; every load order of all modules into MultiModuleResolver (and Model::try_resolve when there is only one module). Oracle: the resolved definitions of the referencing module == those of the literal module (asn1rs's own PartialEq) for every load order. Negative variants (must give Err for every load order): assignment missing everywhere; import removed while a same-named assignment exists in a loaded, non-imported sibling; exporting module not loaded; BOOLEAN / character string / hstring / bstring value assigned where a range or size bound needs an integer. Non-trivial: >= 1 site replaced; distinct = hash of (texts, negative kind).";
+const RULE: &str = "a literal-only module A (roundtrip profile, proptest; in every fourth case some ranges / sizes are made degenerate `n..n` with and without extension marker) is turned into a referencing variant: a random subset of its literal sites (INTEGER bounds, SIZE bounds, DEFAULT values of INTEGER / BOOLEAN / strings) is replaced by fresh value references whose assignments are placed before the use, after the use, or in one of 1..3 sibling modules imported by name only, by OID only (the name in the import differs) or by both - the siblings' OIDs differ in the second arc, or in the last arc only, or each is a proper prefix of the next; every load order of all modules into MultiModuleResolver (and Model::try_resolve when there is only one module). Oracle: the resolved definitions of the referencing module == those of the literal module (asn1rs's own PartialEq) for every load order. Negative variants (must give Err for every load order): assignment missing everywhere; import removed while a same-named assignment exists in a loaded, non-imported sibling; exporting module not loaded; BOOLEAN / character string / hstring / bstring value assigned where a range or size bound needs an integer. Non-trivial: >= 1 site replaced; distinct = hash of (texts, negative kind).";
 
 pub fn run(ctx: Ctx) -> i32 {
     let report = Report::new(ctx.clone(), RULE);
